@@ -1,58 +1,31 @@
-(* Bounded evidence (NOT a theorem about all histories) for the candidate repair of the monitor's retry bookkeeping, see
-   ProofsRetry1.v.  All move sequences of a given length after the prefix "register, worker w parks, Execute with a learner
-   that asks for two retries, the parked call is told to run the task"; moves: w asks again idle / reports a failure of the
-   task / reports Executing / the latest call is released from the clock gate / a second Execute of the same digest
-   (deduplicated, another invocation) / a read-only call 100 time units later (every time-out lapses) / w reports success /
-   a second worker asks for work.  Call ids are consecutive, learner ids distinct, so the hypotheses of
-   monitor_components_on_model hold by construction; histories that report a panic are skipped.
-   Length 4 is checked here (3 x 4096 histories, retry counts 0, 1, 2).  Length 5 (3 x 32768 histories) was run once by hand
-   (2026-09-23, 2 x 140 s): the current bookkeeping rejects 0 / 253 / 48 histories for retry counts 0 / 1 / 2, the repaired
-   one none. *)
-From VF Require Export Sched.ProofsRetry1.
+(* Bounded evidence (NOT a theorem about all histories) about the monitor's retry bookkeeping, positions 14 / 15 of
+   Spec.p_step, and the candidate rule rt_track of ProofsRetry3.v.  Depends only on Spec.v / Corr.v (through ProofsRetry3.v:
+   rt_step false is a copy of the bookkeeping of the current p_step, rt_step true adds the rule).
+
+   Histories: the prefix "register, worker w parks, Execute with a learner that asks for two retries, the parked call is
+   told to run the task", then a fixed middle part, then every sequence of n moves out of ten (rt_mv: w asks again idle / w
+   reports a failure / w reports Executing / the latest call is released / Execute of the same digest in another invocation /
+   a read-only call 12 time units later / w reports success / a second worker asks / the first client is cancelled / the
+   first client's call is released).  Call ids are consecutive and learner ids distinct, so the hypotheses of
+   monitor_components_on_model hold by construction; histories that report a panic are skipped.  Retry counts 0, 1, 2.
+
+   In the build (3 x 1000 histories each): see rt_search_3.
+   Run by hand on 2026-09-23 with n = 4 (3 x 10000 histories each, about 100 s per line):
+     middle []            current p_step rejects 0 / 0 / 0,     with rt_track 0 / 0 / 0
+     middle [4; 8; 9]     current p_step rejects 0 / 0 / 0,     with rt_track 0 / 0 / 0
+     middle [0; 4; 8; 9]  current p_step rejects 0 / 329 / 29,  with rt_track 0 / 0 / 0
+   (middle [0; 4; 8; 9]: one counted re-request, then a second operation is attached and the first client leaves -- the
+   mechanism of rw7_evs needs the entry to be stored before the operation list starts to change.)
+   First round (p_step before the accepted-completion rule was restored; alphabet without moves 8 / 9, time jump 100):
+   n = 4: 0 / 20 / 2 rejected, n = 5: 0 / 253 / 48 rejected, none with that rule. *)
+From VF Require Export Sched.ProofsRetry3.
 From VF Require Import Sched.Spec Sched.Corr.
 Open Scope Z_scope.
 
-Definition rs_w2 : wref := mkW (mkSK (mkPK [] 0) 1) 7 9.
-Definition rs_lrn : learner := Learner 1 None (Some (10, 100, Learner 2 None (Some (10, 100, Learner 3 None None)))).
-Definition rs_pfx : list (event * list (nat * wref)) :=
-  [ (ERegister 0 (mkPK [] 0) [] 0 0 [1%N] 1, []);
-    (EStartSync 1 (mkSync rw_w WIdle false) 2, []);
-    (EStartExecute 2 (mkExec [] 0 5 false 0 [] (0%nat, 10, 100, rs_lrn)) 3, []);
-    (EEnter 1 4, []) ].
-(* move -> event, given the next call id c and the time t *)
-Definition rs_mv (k : nat) (c : nat) (t : Z) : event * Z :=
-  match k with
-  | 0%nat => (EStartSync c (mkSync rw_w WIdle false) t, t + 1)
-  | 1%nat => (EStartSync c (mkSync rw_w (WCompleted 5 (mkResp 2 0 9)) false) t, t + 1)
-  | 2%nat => (EStartSync c (mkSync rw_w (WExecuting 5) false) t, t + 1)
-  | 3%nat => (EEnter (c - 1) t, t + 1)
-  | 4%nat => (EStartExecute c (mkExec [] 0 5 false 0 [9%N] (0%nat, 10, 100, Learner (N.of_nat (100 + c)) None None)) t, t + 1)
-  | 5%nat => (ETick c (t + 100), t + 101)
-  | 6%nat => (EStartSync c (mkSync rw_w (WCompleted 5 (mkResp 0 0 9)) false) t, t + 1)
-  | _ => (EStartSync c (mkSync rs_w2 WIdle false) t, t + 1)
-  end.
-Fixpoint rs_build (ks : list nat) (c : nat) (t : Z) : list (event * list (nat * wref)) :=
-  match ks with
-  | [] => []
-  | k :: tl => let '(e, t') := rs_mv k c t in (e, []) :: rs_build tl (S c) t'
-  end.
-Fixpoint rs_seqs (n : nat) : list (list nat) :=
-  match n with
-  | O => [[]]
-  | S n' => flat_map (fun s => map (fun k => k :: s) (seq 0 8)) (rs_seqs n')
-  end.
-Definition rs_nopanic (os : list (list obs)) : bool := forallb (forallb (fun x => match x with OPanic _ => false | _ => true end)) os.
-Definition rs_cfg (r : nat) : config := mkConfig 5 10 30 10 60 r 20.
-Definition rs_evs (ks : list nat) := rs_pfx ++ rs_build ks 3 5.
-(* a panic-free history the bookkeeping (with / without the repair) rejects *)
-Definition rs_bad (clear : bool) (r : nat) (ks : list nat) : bool :=
-  rs_nopanic (snd (run (init (rs_cfg r) 0) (rs_evs ks))) && negb (rb_accepts clear (rs_cfg r) 0 (rs_evs ks)).
+Definition rt_count (track : bool) (mid : list nat) (n : nat) : list nat :=
+  map (fun r => List.length (filter (rt_bad track r mid) (rt_seqs 10 n))) [0%nat; 1%nat; 2%nat].
 
-(* the witness of ProofsRetry1.v (with a learner that asks for two retries) is one of these histories *)
-Lemma rs_witness : rs_bad false 1 [0%nat; 1%nat; 0%nat] = true /\ rs_bad true 1 [0%nat; 1%nat; 0%nat] = false.
-Proof. vm_compute. split; reflexivity. Qed.
-
-Lemma rs_search_4 :
-  map (fun r => List.length (filter (rs_bad false r) (rs_seqs 4))) [0%nat; 1%nat; 2%nat] = [0%nat; 20%nat; 2%nat] /\
-  map (fun r => filter (rs_bad true r) (rs_seqs 4)) [0%nat; 1%nat; 2%nat] = [[]; []; []].
-Proof. vm_compute. split; reflexivity. Qed.
+Lemma rt_search_3 :
+  rt_count false [] 3 = [0; 0; 0]%nat /\ rt_count true [] 3 = [0; 0; 0]%nat /\
+  rt_count false [0; 4; 8; 9]%nat 3 = [0; 22; 1]%nat /\ rt_count true [0; 4; 8; 9]%nat 3 = [0; 0; 0]%nat.
+Proof. vm_compute. repeat split; reflexivity. Qed.
